@@ -171,7 +171,7 @@ def matmul_dense_mismatch(ob, d, k, nb):
 # ---- methods
 @scenario('C18', 'method.misuse', 'torchtt._tt_base.TT', quick=[dict(case=c) for c in (
         't_on_tensor', 'sum_out_of_range', 'sum_list_out_of_range', 'sum_list_high_first', 'sum_ttm_out_of_range', 'sum_negative', 'sum_bad_type', 'mprod_on_ttm', 'mprod_size', 'mprod_bad_args', 'mprod_mode_range',
-        'qtt_not_list', 'qtt_shape', 'getitem_too_few', 'getitem_too_many', 'getitem_int_range', 'getitem_float', 'getitem_bool', 'getitem_two_ellipsis',
+        'qtt_not_list', 'qtt_shape', 'getitem_too_few', 'getitem_too_many', 'getitem_int_range', 'getitem_float', 'getitem_bool', 'mul_multi_element', 'div_multi_element', 'apply_mask_extra_columns', 'sum_duplicate_axes', 'sum_bool_axis', 'getitem_two_ellipsis',
         'getitem_int_on_order2', 'getitem_slice_on_order2', 'getitem_ttm_ellipsis', 'getitem_ttm_mixed', 'set_core_index', 'set_core_rank',
         'fast_matvec_not_tt', 'fast_matvec_kinds', 'fast_matvec_shape', 'fast_matvec_order', 'mprod_list_len', 'getitem_ttm_odd', 'to_qtt_not_power', 'to_qtt_tensor_not_power', 'to_qtt_ttm_rect', 'ctor_bad_source', 'getitem_str')],
           expect='raise', replay='misuse')
@@ -233,6 +233,25 @@ def method_misuse(ob, case):
         ob.ret = ex.optable.subscript(ex, ob.tt('x', 2), 'a')
     elif case == 'getitem_bool':
         ob.ret = ex.optable.subscript(ex, ob.tt('x', 2), (True, 0, 0))
+    elif case in ('mul_multi_element', 'div_multi_element'):
+        # a tensor with more than one element is not a scalar (its length may happen to broadcast against a rank)
+        x = ob.tt('x', 2)
+        q = z3.Int('q')
+        ex.assume(q >= 2)
+        c = T.atom_tensor('c', [q])
+        ob.ret = ex.binop('Mult' if case == 'mul_multi_element' else 'Div', x, c)
+    elif case == 'apply_mask_extra_columns':
+        x = ob.tt('x', 2)
+        IDX = z3.Function('IDXm', z3.IntSort(), z3.IntSort(), z3.IntSort())
+        ind = STensor([T.Axis(2), T.Axis(3)], 'int64', None, ival=lambda idx: IDX(to_int(idx[0][0]), to_int(idx[1][0])))
+        ind.nonneg = True
+        j, k = z3.Int('jq'), z3.Int('kq')
+        ex.assume(z3.ForAll([j, k], IDX(j, k) == 0))
+        ob.ret = call(x, 'apply_mask', ind)
+    elif case == 'sum_duplicate_axes':
+        ob.ret = call(ob.tt('x', 3), 'sum', [0, 0])
+    elif case == 'sum_bool_axis':
+        ob.ret = call(ob.tt('x', 3), 'sum', True)
     elif case == 'getitem_two_ellipsis':
         ob.ret = ex.optable.subscript(ex, ob.tt('x', 3), (Ellipsis, 0, Ellipsis))
     elif case == 'getitem_int_on_order2':
@@ -292,7 +311,7 @@ def method_misuse(ob, case):
 
 # ---- module-level functions
 @scenario('C18', 'function.misuse', 'torchtt._extras', quick=[dict(case=c) for c in (
-        'kron_kinds', 'kron_bad', 'dot_not_tt', 'dot_ttm', 'dot_size', 'dot_order', 'dot_axis_order', 'dot_axis_size', 'dot_axis_range', 'bilinear_types', 'bilinear_kinds', 'bilinear_shape',
+        'kron_kinds', 'kron_bad', 'dot_not_tt', 'dot_ttm', 'dot_size', 'dot_order', 'dot_axis_order', 'dot_axis_size', 'dot_axis_size1', 'dot_axis_range', 'reshape_negative', 'randn_len_R', 'randn_end_R', 'meshgrid_not_1d', 'bilinear_types', 'bilinear_kinds', 'bilinear_shape',
         'cat_ttm', 'cat_size_before', 'cat_size_after', 'cat_size_both', 'cat_order', 'pad_too_many', 'diag_not_tt', 'permute_not_tt', 'permute_len', 'permute_dup',
         'permute_range', 'reshape_count', 'reshape_ttm_rows', 'reshape_ttm_cols', 'reshape_ttm_swap', 'reshape_ttm_second', 'save_not_tt', 'random_bad_R', 'random_len_R', 'zeros_not_list', 'ones_not_list', 'amen_mv_types', 'amen_mv_kinds', 'amen_mv_shape',
         'amen_solve_types', 'amen_solve_kinds', 'amen_solve_square', 'amen_solve_shape', 'riemann_kinds',
@@ -327,6 +346,20 @@ def function_misuse(ob, case):
         a, b = ob.tt('a', 3), ob.tt('b', 1)
         mismatch(ex, a.N_[1], b.N_[0])
         ob.ret = ex.call(E('dot'), [a, b, [1]])
+    elif case == 'dot_axis_size1':
+        a = ob.tt('a', 3)
+        b = ob.tt('b', 1, N=[1])
+        ex.assume(a.N_[1] >= 2)              # a size-1 mode of b must not be broadcast against a larger mode of a
+        ob.ret = ex.call(E('dot'), [a, b, [1]])
+    elif case == 'reshape_negative':
+        x = ob.tt('x', 2, N=[3, 4])
+        ob.ret = ex.call(E('reshape'), [x, [-3, -4]])
+    elif case == 'randn_len_R':
+        ob.ret = ex.call(E('randn'), [[2, 3], [1, 2, 1, 5, 7]])
+    elif case == 'randn_end_R':
+        ob.ret = ex.call(E('randn'), [[2, 3], [1, 2, 3]])
+    elif case == 'meshgrid_not_1d':
+        ob.ret = ex.call(E('meshgrid'), [[T.atom_tensor('v0', [3, 2]), T.atom_tensor('v1', [2])]])
     elif case == 'dot_axis_range':
         a = ob.tt('a', 3)
         b = ob.tt('b', 2, N=a.N_[:2])
